@@ -122,11 +122,16 @@ def depends(rep, repo):
     K = Kernel(repo)
     c03.initial_value(rep, K)      # the hazard/initial-final theorems rest on the parity invariant of the timing kernel
     c03.parity(rep, K)
+    c03.bounds(rep, K)             # an out-of-bounds waveform access corrupts a neighbouring signal
+    c03.siblings(rep, K)           # the four operand arms of the merge loop must agree
     c07.schedule_rules(rep, repo)
     c08.map_rules(rep, repo)
     # the op list is built from Circuit.topological_order(): its traversal rules (C17) are part of this check
     from checks import c17
     c17.order_rules(rep, repo)
+    # both simulators execute the op list SimOps builds: the node -> op translation rule of C01 is part of this check
+    from checks import c01
+    c01.wiring_rules(rep, repo)
 
 
 def thorough(rep, repo):
